@@ -74,3 +74,38 @@ def run(chk, facts, tier):
                     if not any(x.d.get('call') and 'random' in (x.cn or '') for x in val.walk()):
                         ok, why = False, 'candidate is not drawn from the random number generator'
         chk.instance('passkey-range', fn, 'create_passkey value %s' % var, ok, '' if ok else why, key='create_passkey')
+        # uniformity of the candidate: every one of the k low bits comes from exactly one RNG draw, 2^k > 999999
+        if var is not None and ok:
+            import re as _re
+            for tgt, op, val, st in stores(fn.body):
+                if not (is_name(tgt, var) and val is not None):
+                    continue
+
+                def bits(n):
+                    """-> list of bit positions fed by RNG draws, or None when the expression is not an OR of masked/shifted draws"""
+                    n = strip_casts(n)
+                    b = as_binop(n)
+                    if b and b[0] == '|':
+                        l, r = bits(b[1]), bits(b[2])
+                        return None if l is None or r is None else l + r
+                    if b and b[0] == '<<' and cval(b[2]) is not None:
+                        l = bits(b[1])
+                        return None if l is None else [x + cval(b[2]) for x in l]
+                    if b and b[0] == '&' and (cval(b[2]) is not None or cval(b[1]) is not None):
+                        m = cval(b[2]) if cval(b[2]) is not None else cval(b[1])
+                        l = bits(b[1] if cval(b[2]) is not None else b[2])
+                        return None if l is None else [x for x in l if (m >> x) & 1]
+                    if n.d.get('call'):
+                        m2 = _re.match(r'random_number(\d+)$', n.cn or '')
+                        return list(range(int(m2.group(1)))) if m2 else None
+                    return None
+                bs = bits(val)
+                if bs is None:
+                    chk.broke('create_passkey: candidate expression %s is not an OR of masked / shifted random_number<N>() draws: idiom not recognised' % val.text()[:60])
+                    continue
+                k = len(set(bs))
+                oku = len(bs) == k and sorted(bs) == list(range(k)) and (1 << k) > 999999
+                chk.instance('passkey-range', fn, 'candidate %s: bits %s from the RNG' % (var, ('0..%d' % (k - 1)) if sorted(set(bs)) == list(range(k)) else sorted(set(bs))), oku,
+                             '' if oku else ('two draws feed the same bit (OR of two random bits is 1 with probability 3/4)' if len(bs) != k else
+                                             'the candidate covers only %d bit(s) (0..%d): values above are never generated, the accepted values are not uniform over 000000..999999' % (k, (1 << k) - 1) if sorted(bs) == list(range(k)) else
+                                             'bits %s are never random' % sorted(set(range(max(bs) + 1)) - set(bs))), node=st, key='create_passkey candidate bits')
